@@ -1,8 +1,10 @@
-"""Typed stream of C09 (oracle only): tracked variables of boolean, fixed-point and list kind next to secret integers,
-value-level `if_then_else(cond, a, b)` on mixed kinds, in-place element updates of tracked lists, and references to a
-list object taken before a block and read after the program.  These programs are NOT part of the Lean statement language
-(Model/Branching.lean covers integer-valued tracked variables); they are checked against the native twin, for
-satisfaction/coherence, and for independence of the constraint system from the inputs."""
+"""Typed stream of C09: tracked variables of boolean, fixed-point, list and list-of-lists kind next to secret integers,
+value-level `if_then_else(cond, a, b)` on mixed kinds, in-place element updates of tracked lists (one and two indices), and
+references to a list object taken before a block and read after the program.  These programs are part of the Lean statement
+language (Model/Branching.lean: `TVal`); they are compared with the model (V+S+W), checked against the native twin, for
+satisfaction/coherence, and for independence of the constraint system from the inputs.  `ref` statements (a second name
+for a list object, read after the program) have no counterpart in the model, which ignores them: the model has value
+semantics for lists, and the generator never updates in place a list object that is reachable under two names."""
 import json
 
 CMPS = ["lt", "le", "eq", "ne", "gt", "ge"]
@@ -33,6 +35,8 @@ class TG:
             if k < 0.4 and ints: return ["var", r.choice(ints)]
             if k < 0.6: return ["in", r.randrange(self.ninp)]
             if k < 0.7 and lists: return ["item", r.choice(lists), r.randrange(2)]
+            mats = self.of("mat")
+            if k < 0.78 and mats: return ["item2", r.choice(mats), r.randrange(2), r.randrange(2)]
             if k < 0.8 and lvs: return ["loopvar", r.choice(lvs)]
             return ["const", r.randrange(-3, 6)]
         op = r.choice(["add", "add", "sub", "mul"])
@@ -43,7 +47,7 @@ class TG:
     def secret_int(self, lvs=()):
         e = self.int_expr(0, lvs)
         s = json.dumps(e)
-        if '"var"' not in s and '"in"' not in s and '"item"' not in s:
+        if '"var"' not in s and '"in"' not in s and '"item' not in s:
             e = ["add", ["in", self.rnd.randrange(self.ninp)], e]
         return e
 
@@ -52,6 +56,12 @@ class TG:
         bools = self.of("bool")
         if boolvar and bools and r.random() < 0.25:
             return ["var", r.choice(bools)]
+        fx = self.of("fxp")
+        if fx and r.random() < 0.15:
+            # a fixed-point number on the left of a comparison (the other side is converted): against a constant, another
+            # fixed-point number or a secret integer; `LinComb < LinCombFxp` (integer on the left) is the recorded C14 deviation
+            right = r.choice([["const", r.randrange(-2, 4)], ["var", r.choice(fx)], ["fin", r.randrange(self.nfin)], ["in", r.randrange(self.ninp)]])
+            return [r.choice(CMPS), ["var", r.choice(fx)], right]
         a = ["in", r.randrange(self.ninp)] if r.random() < 0.5 or not self.of("int") else ["var", r.choice(self.of("int"))]
         return [r.choice(CMPS), a, ["const", r.randrange(-2, 5)]]
 
@@ -61,7 +71,7 @@ class TG:
             return self.cond(lvs)
         if c < 0.8:
             return ["not", self.bool_expr(depth + 1, lvs)]
-        return ["and", self.bool_expr(depth + 1, lvs), self.bool_expr(depth + 1, lvs)]
+        return [r.choice(["and", "and", "or"]), self.bool_expr(depth + 1, lvs), self.bool_expr(depth + 1, lvs)]
 
     def fxp_expr(self, depth=0):
         r = self.rnd; c = r.random(); fx = self.of("fxp")
@@ -77,8 +87,12 @@ class TG:
     def list_expr(self, lvs=()):
         return ["list", [self.secret_int(lvs), self.secret_int(lvs)]]
 
+    def mat_expr(self, lvs=()):
+        """a list of lists built from fresh list literals (no row object is shared with anything)"""
+        return ["list", [self.list_expr(lvs), self.list_expr(lvs)]]
+
     def expr_of(self, kind, lvs=()):
-        return {"int": self.secret_int, "bool": self.bool_expr, "list": self.list_expr}[kind](lvs=lvs) if kind != "fxp" else self.fxp_expr()
+        return {"int": self.secret_int, "bool": self.bool_expr, "list": self.list_expr, "mat": self.mat_expr}[kind](lvs=lvs) if kind != "fxp" else self.fxp_expr()
 
     # ---- statements
     def sel(self):
@@ -90,6 +104,12 @@ class TG:
             c = self.cond()
             x = r.choice(lists) if r.random() < 0.3 else self.new("list")
             self.noset.add(x)
+            return ["sel", x, c, ["copy", ["var", a]], ["copy", ["var", b]]]
+        mats = self.of("mat")
+        if len(mats) >= 2 and r.random() < 0.3:
+            a, b = r.sample(mats, 2)
+            c = self.cond()
+            x = self.new("mat")
             return ["sel", x, c, ["copy", ["var", a]], ["copy", ["var", b]]]
         ka, kb = r.choice([("fxp", "fxp"), ("fxp", "bool"), ("bool", "fxp"), ("fxp", "int"), ("int", "fxp"), ("bool", "bool"),
                            ("bool", "int"), ("int", "bool"), ("fxp", "const"), ("const", "fxp"), ("bool", "const"), ("int", "int")])
@@ -113,6 +133,14 @@ class TG:
                 y = r.choice(others); self.noset.update((x, y))
                 return ["assign", x, ["var", y]], None             # `_.m = _.l`: both names share one list object
             return ["assign", x, self.list_expr(lvs)], None
+        if k == "mat":
+            c = r.random()
+            if c < 0.6 and x not in self.noset:
+                # in-place write through two indices: `_.m[i][j] = e`
+                return ["setitem2", x, r.randrange(2), r.randrange(2), self.secret_int(lvs)], None
+            if c < 0.8 and x not in self.noset:
+                return ["setitem", x, r.randrange(2), self.list_expr(lvs)], None      # a row replaced by a new list
+            return ["assign", x, self.mat_expr(lvs)], None
         nk = k
         if inblock and not inloop and r.random() < 0.35:
             nk = r.choice([q for q in ("int", "bool", "fxp") if q != k])      # the arm changes the kind of the variable
@@ -132,7 +160,7 @@ class TG:
         """kinds after a block: booleans come back as plain secrets (the merge is `b + c*(a-b)`), fixed point wins"""
         for x, k in before.items():
             ks = {k} | {ch[x] for ch in changes if x in ch}
-            self.kinds[x] = "list" if k == "list" else "fxp" if "fxp" in ks else "int"
+            self.kinds[x] = k if k in ("list", "mat") else "fxp" if "fxp" in ks else "int"
 
     def stmt(self, depth):
         r = self.rnd; c = r.random()
@@ -144,7 +172,7 @@ class TG:
             l = r.choice(self.of("list")); self.noset.add(l); self.refs += 1
             return ["ref", f"r{self.refs}", l]
         if c < 0.55:
-            k = r.choice(["bool", "fxp", "list", "int"])
+            k = r.choice(["bool", "fxp", "list", "int", "mat"])
             e = self.expr_of(k)
             return ["assign", self.new(k), e]
         before = dict(self.kinds)
@@ -180,9 +208,9 @@ class TG:
     def prog(self):
         r = self.rnd
         init = {}
-        for k in ["int"] + [r.choice(["bool", "fxp", "list", "int"]) for _ in range(r.randrange(2, 5))]:
+        for k in ["int"] + [r.choice(["bool", "fxp", "list", "int", "mat", "mat"]) for _ in range(r.randrange(2, 5))]:
             x = self.new(k)
-            init[x] = {"int": r.randrange(-3, 6), "bool": r.randrange(2), "fxp": r.randrange(-8, 12), "list": [r.randrange(-2, 6), r.randrange(-2, 6)]}[k]
+            init[x] = init_value(r, k)
         kinds0 = dict(self.kinds)
         body = []
         while self.budget > 0:
@@ -190,6 +218,15 @@ class TG:
             body.append(self.stmt(0))
         return {"typed": True, "stream": "typed", "kinds": kinds0, "init": init, "secret_vars": list(init),
                 "inputs": [r.randrange(-2, 6) for _ in range(self.ninp)], "finputs": [r.randrange(-8, 12) for _ in range(self.nfin)], "body": body}
+
+
+def init_value(r, k):
+    if k == "int": return r.randrange(-3, 6)
+    if k == "bool": return r.randrange(2)
+    if k == "fxp": return r.randrange(-8, 12)
+    if k == "list": return [r.randrange(-2, 6), r.randrange(-2, 6)]
+    if k == "mat": return [[r.randrange(-2, 6), r.randrange(-2, 6)], [r.randrange(-2, 6), r.randrange(-2, 6)]]
+    raise ValueError(k)
 
 
 def gen_typed(rnd):
@@ -203,8 +240,7 @@ def reroll(prog, rnd):
     q["finputs"] = [rnd.randrange(-8, 12) for _ in q.get("finputs", [])]
     for k in q["init"]:
         kd = q.get("kinds", {}).get(k, "int")
-        q["init"][k] = {"int": rnd.randrange(-3, 6), "bool": rnd.randrange(2), "fxp": rnd.randrange(-8, 12),
-                        "list": [rnd.randrange(-2, 6), rnd.randrange(-2, 6)]}[kd]
+        q["init"][k] = init_value(rnd, kd)
     return q
 
 
@@ -230,6 +266,18 @@ FIXED = [
     {"kinds": {"x0": "list", "x1": "list"}, "init": {"x0": [1, 2], "x1": [7, 8]}, "inputs": [1], "finputs": [],
      "body": [["ref", "r1", "x0"],
               ["if", [[["eq", ["in", 0], ["const", 1]], [["assign", "x0", ["list", [["add", ["in", 0], ["const", 8]], ["item", "x0", 1]]]], ["assign", "x1", ["var", "x0"]]]]], None]]},
+    # a list of lists: two-index writes inside a block (taken or not), inside the rounds of a loop, a row replaced
+    {"kinds": {"x0": "mat", "x1": "int"}, "init": {"x0": [[1, 2], [3, 4]], "x1": 5}, "inputs": [0, 2], "finputs": [],
+     "body": [["if", [[["eq", ["in", 0], ["const", 1]], [["setitem2", "x0", 0, 1, ["add", ["in", 0], ["const", 9]]], ["assign", "x1", ["add", ["var", "x1"], ["const", 1]]]]]], None],
+              ["for", "i0", ["in", 1], 3, [["setitem2", "x0", 1, 0, ["add", ["item2", "x0", 1, 0], ["loopvar", "i0"]]]]],
+              ["if", [[["gt", ["item2", "x0", 1, 0], ["const", 3]], [["setitem", "x0", 0, ["list", [["add", ["in", 0], ["const", 7]], ["item2", "x0", 1, 1]]]]]]],
+               [["setitem2", "x0", 1, 1, ["sub", ["in", 1], ["const", 5]]]]]]},
+    # the same inside a while loop with a break condition; selection between two lists of lists
+    {"kinds": {"x0": "mat", "x1": "mat", "x2": "int"}, "init": {"x0": [[1, 2], [3, 4]], "x1": [[5, 6], [7, 8]], "x2": 0}, "inputs": [2, 1], "finputs": [],
+     "body": [["while", ["lt", ["var", "x2"], ["in", 0]], 3, [["setitem2", "x0", 0, 0, ["add", ["item2", "x0", 0, 0], ["const", 2]]], ["assign", "x2", ["add", ["var", "x2"], ["const", 1]]]],
+               ["eq", ["item2", "x0", 0, 0], ["const", 5]]],
+              ["sel", "x3", ["eq", ["in", 1], ["const", 1]], ["copy", ["var", "x0"]], ["copy", ["var", "x1"]]],
+              ["if", [[["eq", ["in", 1], ["const", 0]], [["setitem2", "x3", 1, 1, ["add", ["in", 0], ["const", 1]]]]]], None]]},
     # element-wise update of a tracked list inside a loop and a block
     {"kinds": {"x0": "list", "x1": "int"}, "init": {"x0": [0, 0], "x1": 1}, "inputs": [2], "finputs": [],
      "body": [["for", "i0", ["in", 0], 3, [["setitem", "x0", 0, ["add", ["item", "x0", 0], ["var", "x1"]]], ["assign", "x1", ["add", ["var", "x1"], ["loopvar", "i0"]]]]],
